@@ -178,6 +178,18 @@ class Templates:
                 tok.rep = blk in loops
                 self.events.append(tok)
                 self.by_stream.setdefault(tok.stream, []).append(tok)
+        # a stream that starts from the result of a call (not TokenStream::new()) carries that content first
+        for stream in list(self.by_stream):
+            if stream is None or stream <= b.arg_count:
+                continue
+            ds = [d for d in b.defs().get(stream, []) if d[2] == "call" and not b.is_cleanup(d[0])]
+            if len(ds) == 1:
+                ci = mir.callee_info(ds[0][3])
+                name = (ci.get("resolved") or ci["fn"]) if ci else ""
+                if name and name != "proc_macro2::TokenStream::new" and not name.endswith("Default>::default"):
+                    tk = Tok(ds[0][0], "interp", "proc_macro2::TokenStream", stream, ty="proc_macro2::TokenStream", expr=self.sym.show(self.sym._def_expr(ds[0], 0)))
+                    self.by_stream[stream].insert(0, tk)
+                    self.events.append(tk)
 
     # ------------------------------------------------------------------ rendering
     def render(self, stream, depth=0, seen=None):
